@@ -35,6 +35,9 @@ structure SubPath where
   start : Point
   segs : List Seg
   closed : Bool
+  /-- book-keeping only (no function of the specification reads it): the sub-path was begun
+  implicitly by a segment appended after `h`, not by `m`/`re`. -/
+  implicit : Bool := false
 deriving DecidableEq, Repr
 
 /-- A colour space as far as the operators care: number of components, or Pattern. -/
@@ -76,8 +79,8 @@ structure SState where
 
 /-- `closed axis-aligned quadrilateral`: the four sides alternate vertical / horizontal. -/
 def axisAligned (p0 p1 p2 p3 : Point) : Bool :=
-  (p0.1 == p1.1 && p1.2 == p2.2 && p2.1 == p3.1 && p3.2 == p0.2) ||
-  (p0.2 == p1.2 && p1.1 == p2.1 && p2.2 == p3.2 && p3.1 == p0.1)
+  decide ((p0.1 = p1.1 ∧ p1.2 = p2.2 ∧ p2.1 = p3.1 ∧ p3.2 = p0.2) ∨
+          (p0.2 = p1.2 ∧ p1.1 = p2.1 ∧ p2.2 = p3.2 ∧ p3.1 = p0.1))
 
 def hull : List Point → Option Rect
   | [] => none
@@ -94,7 +97,7 @@ def pathOf (f : Point → Point) (sp : SubPath) : List PSeg :=
 point of a closed sub-path with its closing segment. -/
 def normSegs (s : Point) (closed : Bool) (segs : List Seg) : List Seg :=
   match segs.getLast? with
-  | some (.l p) => if closed && segs.length ≥ 2 && p == s then segs.dropLast else segs
+  | some (.l p) => if closed = true ∧ segs.length ≥ 2 ∧ p = s then segs.dropLast else segs
   | _ => segs
 
 /-- The one shape of a painted sub-path with at least one segment (`none` when it has no segment). -/
@@ -112,7 +115,7 @@ def shapeOf (g : SGState) (stroke fill evenodd : Bool) (sp : SubPath) : Option S
     | true, [p1, p2, p3], true =>
       if axisAligned s p1 p2 p3 then (.rect, [s, p1, p2, p3]) else (.curve, [s, p1, p2, p3, s])
     | true, [p1, p2, p3, p4], false =>
-      if p4 == s && axisAligned s p1 p2 p3 then (.rect, [s, p1, p2, p3]) else (.curve, [s, p1, p2, p3, p4])
+      if p4 = s ∧ axisAligned s p1 p2 p3 = true then (.rect, [s, p1, p2, p3]) else (.curve, [s, p1, p2, p3, p4])
     | _, _, _ => (.curve, s :: ends ++ (if sp.closed then [s] else []))
   some { kind := kind, pts := pts, path := pathOf f sp, bbox := hull pts, linewidth := g.linewidth,
          stroke := stroke, fill := fill, evenodd := evenodd, scolor := g.scolor, ncolor := g.ncolor,
@@ -127,7 +130,7 @@ def closeLast : List SubPath → List SubPath
 (ISO 32000-1, 8.5.2.1, operator h). -/
 def addSeg (s : Seg) : List SubPath → List SubPath
   | [] => []
-  | [sp] => if sp.closed then [sp, { start := sp.start, segs := [s], closed := false }]
+  | [sp] => if sp.closed then [sp, { start := sp.start, segs := [s], closed := false, implicit := true }]
             else [{ sp with segs := sp.segs ++ [s] }]
   | sp :: rest => sp :: addSeg s rest
 
